@@ -71,6 +71,10 @@ class ReplayBuild:
         except subprocess.TimeoutExpired:
             return "REPLAY no-answer within %d s (not judged)" % limit
         out = (p.stdout + p.stderr).strip()
+        if p.returncode != 0 and "REPLAY violated" not in out and "REPLAY holds" not in out:
+            # the replay program itself died (a panic inside the database under a seeded change, or a
+            # defect of the oracle): not judged - and said so, instead of passing silently
+            return "REPLAY crashed rc=%d (not judged): %s" % (p.returncode, out[:300].replace("\n", " | "))
         return out
 
     def __exit__(self, *a):
